@@ -25,6 +25,18 @@ ROUNDS = {
   "T10": ("crypt_ra and struct crypt_data handling in lib/crypt.c (allocation protocol, size bookkeeping, erasure before growth, the initialized field, get_internal alignment arithmetic, the order of make_failure_token / validation / wiping in crypt_rn, crypt_r, crypt_ra, crypt) -- prefer defects that need a particular prior state of (*data,*size) or of the object, or an allocator failure", ["C14", "C15", "C09", "C05", "C04"]),
  },
 }
+ROUNDS["U"] = {
+  "U01": ("the digest cores lib/alg-md4.c, alg-md5.c, alg-sha1.c, alg-sha256.c, alg-sha512.c: Init/Update/Final buffering (partial blocks, exact multiples, lengths that make the padding spill into a second block, the bit-length encoding, updates of 0 bytes, very long single updates), endianness helpers, context wiping", ["C16", "C02", "C09"]),
+  "U02": ("Streebog and the GOST layer: lib/alg-gost3411-2012-core.c (g, LPS, add512, stage2/stage3, Update/Final), lib/alg-gost3411-2012-hmac.c, and the outer layer of lib/crypt-gost-yescrypt.c (how the yescrypt output is HMAC'ed and re-encoded, setting rewriting $gy$ <-> $y$)", ["C16", "C02", "C01", "C06", "C09"]),
+  "U03": ("the yescrypt core in lib/alg-yescrypt-opt.c: blockmix_salsa8, blockmix (pwxform rounds, Sbox handling, w counter), smix1/smix2 loop bounds and index computation (integerify, wrap, p2floor), Nloop rounding, the 'SCRAM finalization' / client-key step at the end of yescrypt_kdf_body, and salt/passwd prehash", ["C02", "C03", "C01"]),
+  "U04": ("text encoders and decoders used to build and read hash strings: lib/util-base64.c, b64_from_24bit and to64 in crypt-md5/sha256/sha512/sunmd5/pbkdf1-sha1, encode64/decode64 and encode64_uint32/decode64_uint32 in lib/alg-yescrypt-common.c, BF_encode/BF_decode, des_gen_hash, the hex output of NT -- off-by-one, wrong alphabet index, missing terminator, group boundary at the last partial group", ["C06", "C01", "C02", "C10"]),
+  "U05": ("output-buffer arithmetic of the setting generators and hashing functions: every place that compares a needed length with out_size/o_size/output_size (lib/util-gensalt-sha.c, gensalt_*_rn in lib/crypt-*.c, the 'out_size < ...' checks at the top of each crypt_*_rn, lib/util-xstrcpy.c) and how many random bytes are consumed", ["C13", "C12", "C04", "C06"]),
+  "U06": ("secrets left behind: any path (especially error paths and early returns) on which a passphrase copy, a derived key, an HMAC pad, a cipher key schedule, a digest context or drawn random bytes is not erased before return; and writes that stay inside struct crypt_data but outside the documented fields (setting/input must stay untouched)", ["C09", "C04"]),
+  "U07": ("hidden state: static or thread-unsafe data reachable from crypt_r/crypt_rn/crypt_ra/crypt_gensalt_rn/crypt_gensalt_ra/crypt_checksalt, lazy initialisation, caches, and anything that makes a later call depend on an earlier one (including through errno, through the data object, or through the static buffers of crypt()/crypt_gensalt())", ["C08", "C07", "C10"]),
+  "U08": ("lib/hashes.conf (flags STRONG/DEFAULT/ALT..., prefixes, nrbytes column), build-aux/scripts/gen-crypt-hashes-h and gen-crypt-h, crypt_preferred_method, crypt_checksalt's strong/legacy/disabled/too-cheap classification, CRYPT_GENSALT_IMPLEMENTS_* macros -- defects visible only for some methods or some --enable-hashes selections", ["C18", "C19", "C10"]),
+  "U09": ("memory management around the yescrypt region and crypt_ra: lib/alg-yescrypt-platform.c (alloc_region, free_region, init_region), the local/shared handling in yescrypt_kdf and yescrypt_init_local/free_local, crypt_yescrypt_rn / crypt_gost_yescrypt_rn / crypt_scrypt_rn cleanup order, crypt_ra growth -- prefer defects that need an allocation or mapping failure, a second call on the same object, or a particular size", ["C15", "C14", "C09", "C05"]),
+  "U10": ("anything in lib/ of your choice that the earlier changes did not touch, preferring defects that arise from the interplay of two functions (a caller relying on a post-condition of a helper that you weaken slightly, or a helper relying on a pre-condition that you stop establishing)", ["C01", "C02", "C03", "C05", "C06", "C07", "C09", "C10", "C11", "C12", "C13"]),
+}
 BASE = '''You are helping evaluate a verification framework by producing *seeded defects* ("mutations") for the C library libxcrypt (crypt/crypt_r/crypt_rn/crypt_ra/crypt_gensalt* password hashing API).
 
 Your private scratch copy of the repository is the directory __DIR__ (a full git clone with the autotools build already configured and built in-tree: `make -j8` rebuilds, `make -j8 check` runs the 47-test suite in about 80 seconds; one test, getrandom-fallbacks, is normally SKIPped). Work ONLY inside __DIR__ (and files you create under __DIR__/OUT). Do NOT touch /repo or /verif, and do not read anything under /verif.
